@@ -5,7 +5,8 @@ From Verif Require Import Common.Base.
 From Verif Require Export C06.Model.   (* the generated case files name Pipe, NExp, NConn *)
 
 (* wire label (tag, (i, (k, v))): tag 0 = the fan-out's next consumer call; 1 = consumer i appends
-   marker v; 2 = consumer i sets entry k to v; 3 = consumer i removes the entries with marker v *)
+   marker v; 2 = consumer i sets entry k to v; 3 = consumer i removes the entries with marker v;
+   4 = the caller's context ends (cancel / deadline) *)
 Definition wlabel := (nat * (nat * (nat * Z)))%type.
 
 Definition label_of (x : wlabel) : label :=
@@ -14,20 +15,27 @@ Definition label_of (x : wlabel) : label :=
   | 0 => LCall
   | 1 => LWrite i (WAppend v)
   | 2 => LWrite i (WSet k v)
-  | _ => LWrite i (WRemove v)
+  | 3 => LWrite i (WRemove v)
+  | _ => LCancel
   end.
 
 (* wire event (tag, (i, (a, seen))):
-     tag 0 = call of consumer i, a = 2*cell + (1 if IsReadOnly at call time), seen = content at call time
+     tag 0 = call of consumer i, a = 4*cell + (2 if the ctx handed to the consumer is done) + (1 if IsReadOnly
+             at call time), seen = content at call time
+     tag 2 = the caller's context ended
      tag 1 = write attempt by consumer i, a = 0 mutated | 1 panicked | 2 no mutator reached / no payload *)
 Definition wev := (nat * (nat * (nat * list Z)))%type.
 
 Definition wres_code (r : wres) : nat := match r with WOk => 0 | WPanic => 1 | WSkip => 2 end.
 
-Definition wire_ev (e : ev) : wev :=
-  match e with
-  | ECall i c ro seen => (0, (i, (2 * c + (if ro then 1 else 0), seen)))
-  | EWrite i _ r => (1, (i, (wres_code r, [])))
+(* log is oldest first here; [done] = the context ended earlier *)
+Fixpoint wire_evs (done : bool) (log : list ev) : list wev :=
+  match log with
+  | [] => []
+  | ECall i c ro seen :: r =>
+      (0, (i, (4 * c + (if done then 2 else 0) + (if ro then 1 else 0), seen))) :: wire_evs done r
+  | EWrite i _ res :: r => (1, (i, (wres_code res, []))) :: wire_evs done r
+  | ECancel :: r => (2, (0, (0, []))) :: wire_evs true r
   end.
 
 Definition listZ_eqb := list_eqb Z.eqb.
@@ -60,7 +68,7 @@ Record fan_out := mkOut { f_cap : bool; f_evs : list wev; f_final : list (option
 Definition model_fan (caps : list bool) (ro_in : bool) (c0 : list Z) (errs : list (list N)) (ls : list wlabel) : fan_out :=
   let f := new_fan caps in
   let m := run f ro_in c0 (map label_of ls) in
-  mkOut (fan_cap f) (map wire_ev (rev (elog m))) (map (view m) (seq 0 (length caps))) (is_ro (st m) 0)
+  mkOut (fan_cap f) (wire_evs false (rev (elog m))) (map (view m) (seq 0 (length caps))) (is_ro (st m) 0)
         (consume_err f errs).
 
 (* capabilities of every pipeline in a tree, pre-order *)
